@@ -59,6 +59,13 @@ def frag_reads(header, contigs, method, idx, fr):
     paired = l2 > 0
     r1s = hi - l1 if rev else lo
     r2s = (lo if rev else hi - l2) if paired else None
+    if fr.get('pu'):      # unmapped but placed (flag 0x4 with RNAME / POS): single read or pair, both mates unmapped at `lo`
+        out = [bamgen.make_read(header, name, cname, lo, fill(l1, idx * 7), unmapped=True, paired=paired, read1=paired,
+                                mate_unmapped=paired, mate_contig=cname if paired else None, mate_pos=lo, tags=tags)]
+        if paired:
+            out.append(bamgen.make_read(header, name, cname, lo, fill(l2, idx * 11 + 3), unmapped=True, paired=True, read2=True,
+                                        mate_unmapped=True, mate_contig=cname, mate_pos=lo, tags=tags))
+        return out
     clip = fr.get('clip', 0)        # soft-clipped bases at R1's 5' end (moves the NlaIII / CHiC site outwards by `clip`)
     body = fill(l1 + clip, idx * 7)
     n1 = l1 + clip
@@ -404,7 +411,7 @@ NAME_SCHEMES = [['chr1', 'chr2', 'chr3', 'chr4', 'chr5', 'chr6'],
                 ['1', '11', 'MT', 'X', '10', '0']]
 
 
-def random_library(rng, method, big=False, n_small=0):
+def random_library(rng, method, big=False, n_small=0, unmapped_only=False):
     """molecules straddling the boundaries of a grid (bin size B, margin F) on 1-3 contigs, trimmed reads of unequal
     length, PCR duplicates with different R2 ends, rejected reads, single-end reads, unplaced reads"""
     B = rng.choice([300, 400, 500])
@@ -496,6 +503,20 @@ def random_library(rng, method, big=False, n_small=0):
             f['c'] += f['c'] >= at
             if f.get('r2_c', -1) >= 0:
                 f['r2_c'] += f['r2_c'] >= at
+    if unmapped_only or (not big and rng.random() < 0.3):
+        # a contig whose only reads are unmapped-but-placed (idxstats: mapped 0, unmapped > 0); small or big in the CLI layouts
+        at = rng.randint(0, len(contigs))
+        ln = rng.choice([100000, 99999, 5 * B]) if big else rng.choice([3 * B, 3 * B + 2])
+        contigs.insert(at, ('unmappedonly', ln))
+        for f in frags:
+            f['c'] += f['c'] >= at
+            if f.get('r2_c', -1) >= 0:
+                f['r2_c'] += f['r2_c'] >= at
+        for j in range(rng.randint(1, 3)):
+            p0 = rng.choice([0, B, B - 1, rng.randint(1, min(ln, 5 * B) - 40)])
+            frags.append({'c': at, 'lo': p0, 'hi': p0 + 30, 'rev': False, 'l1': 30, 'l2': rng.choice([0, 30]), 'valid': False,
+                          'umi': 'TTT', 'cell': 'cellA', 'pu': True, 'r2_c': -1})
+        frags.sort(key=lambda f: (f['c'], f['lo']))
     return {'B': B, 'F': F, 'contigs': contigs, 'frags': frags, 'nun': rng.choice([0, 1, 3]), 'maxext': maxext}
 
 
@@ -627,7 +648,7 @@ def main():
                                                        'order': 1, 'bed': False, 'maxtime': 0, 'variant': '', 'vcontig': ''}, tid, 'E'))
         for k in range(ncpp):
             method = 'nla' if k % 2 == 0 else 'chic'
-            lib = random_library(rng, method, big=True, n_small=[1, 0, 2, 1, 3, 0][k % 6])
+            lib = random_library(rng, method, big=True, n_small=[1, 0, 2, 1, 3, 0][k % 6], unmapped_only=k % 3 != 2)
             if lib['nun'] == 0 and k % 2 == 0:
                 lib['nun'] = 2
             bam = os.path.join(tmp, 'big%d.bam' % k)
